@@ -1667,7 +1667,7 @@ def _ordered_merge(left: DataFrame,
     # ====================
 
     left_map = dest['_left_map'] if '_left_map' in dest else None
-    right_map = dest['_right_map']
+    right_map = dest['_right_map'] if '_right_map' in dest else None
 
     if left_map is None:
         for k in left_fields_to_map:
@@ -1687,12 +1687,20 @@ def _ordered_merge(left: DataFrame,
             else:
                 ops.ordered_map_valid_stream(left[k], left_map, dest_f, invalid)
 
-    for k in right_fields_to_map:
-        dest_k = k
-        if k in dest:
-            dest_k += right_suffix
-        dest_f = right[k].create_like(dest, dest_k)
-        if right[k].indexed:
-            ops.ordered_map_valid_indexed_stream(right[k], right_map, dest_f, invalid)
-        else:
-            ops.ordered_map_valid_stream(right[k], right_map, dest_f, invalid)
+    if right_map is None:
+        for k in right_fields_to_map:
+            dest_k = k
+            if k in dest:
+                dest_k += right_suffix
+            dest_f = right[k].create_like(dest, dest_k)
+            ops.chunked_copy(right[k], dest_f, chunk_size)
+    else:
+        for k in right_fields_to_map:
+            dest_k = k
+            if k in dest:
+                dest_k += right_suffix
+            dest_f = right[k].create_like(dest, dest_k)
+            if right[k].indexed:
+                ops.ordered_map_valid_indexed_stream(right[k], right_map, dest_f, invalid)
+            else:
+                ops.ordered_map_valid_stream(right[k], right_map, dest_f, invalid)
